@@ -411,8 +411,10 @@ class DemoStorage(ConflictResolvingStorage):
                 return
             self._stored_oids = set()
             self._transaction = None
-            self.changes.tpc_abort(transaction)
-            self._commit_lock.release()
+            try:
+                self.changes.tpc_abort(transaction)
+            finally:
+                self._commit_lock.release()
 
     def tpc_begin(self, transaction, *a, **k):
         with self._lock:
